@@ -185,16 +185,18 @@ class StructCore(object):
                     data.append(getattr(self._v, f.name))
                 elif hasattr(f,'subnames'):
                     D = {}
-                    for x in self.subnames:
+                    for x in f.subnames:
                         D[x] = getattr(self._v,x)
                     data.append(D)
         parts = []
         offset = 0
         for f, v in zip(self.fields, data):
             p = f.pack(v,psize)
-            if not self.packed:
-                pad = f.align(offset,psize) - offset
-                p = b"\0" * pad + p
+            if self.union is False:
+                if not self.packed:
+                    pad = f.align(offset,psize) - offset
+                    p = b"\0" * pad + p
+                offset += len(p)
             parts.append(p)
         if self.union is False:
             res = b"".join(parts)
